@@ -366,7 +366,7 @@ def separators(led):
                     # labels / names: not numbers that a split has to separate from numbers? they are: keep the rule
                     pass
                 ok = any(ch.isspace() for ch in gap) or (gap != "" and not gap[-1].isalnum() and not gap[0].isalnum() and gap.strip() != "") or fmtspec.leading_blank_guaranteed(right)
-                name = f"separated@{fmt}.{r.func}:{{{left.expr.replace(' ', '')[:24]}:{left.spec}}}{{{right.expr.replace(' ', '')[:24]}:{right.spec}}}"
+                name = f"separated@{fmt}:{{{fmtspec.identity(left)}:{left.spec}}}{{{fmtspec.identity(right)}:{right.spec}}}"
                 rec(led, name, ok, f"text between the two fields: {gap!r}; the reader of {fmt} splits this record on white space", witness={"record": text, "line": r.line, "failing value": "any value that fills the right-hand field's width"}, backend="ast")
     return n
 
